@@ -73,6 +73,11 @@ CLAIMED = {
    note="'Re-derived' is path-insensitive (a store in the re-derivation step or its callees); encoding/json semantics assumed; serving phase from the VTA call graph.",
    technique="static analysis: struct-tag/field read-write query over SSA (persisted-or-rederived), dominance and reachability rules on registration stores, path-condition sets, errors-returned path rule",
    ref="DESIGN.md §2 E6, §3 C15"),
+ "C16": dict(
+   text="Static analysis of structural necessary conditions of the CMAF-ingest sender: request typestate — every *http.Request the ingester creates passes setReqHeaders before Client.Do/sendRequest, and setReqHeaders sets the ingest version header unconditionally, a content type per media kind and credentials exactly when both are configured; no media send unless the init error counter (incremented on the error side of the init send) is zero; every select of the session loop has a <-ctx.Done() arm, a step request cannot block on a finished session, and the delete handler's successful answers are dominated by a call of the session's cancel function; each representation's $Time$ comes from timeline entries generated for its own id and segments come from writeSegment, the generator the HTTP handler uses; session tables/state are accessed under a lock wherever concurrent API calls or the session goroutine write them (E2; unsynchronised today: known findings). Numbering, byte equality, lmsg, duration and failing receivers are not decided.",
+   note="net/http trusted; E2 assumptions as for C07; the E2 findings are the ones also listed under C07.",
+   technique="static analysis: typestate/dominance rules on request values, control-dependence rules, select-arm query, dependence on own representation id, must-lockset analysis (E2)",
+   ref="DESIGN.md §3 C16"),
  "C18": dict(
    text="Static analysis (SSA control-flow walk + range/guard analysis) of two structural necessary conditions: every callback/read error is returned on all non-nil paths, and the box-walk cursor provably advances and cannot wrap. Decides those clauses for every input and read schedule; does not decide output equality.",
    note="Trusts go/types, go/ssa; VTA call graph for reachability; integer overflow only modelled where a rule says so.",
